@@ -24,7 +24,7 @@ def class_variants(prog, tier):
     return out
 
 
-def eval_post(I, res, emit, slf, pt, value_of=None, props_value=("C01",), who=""):
+def eval_post(I, res, emit, slf, pt, value_of=None, props_value=("C01",), who="", extra=()):
     """Post-condition of an evaluation-like call: returns r => D and S and r = value;
     DomainError => not D; CoordinateMissing => not S; nothing else escapes."""
     d = spec.den(I, slf, pt)
@@ -37,7 +37,7 @@ def eval_post(I, res, emit, slf, pt, value_of=None, props_value=("C01",), who=""
         emit("returns=>D", ["C02", "C07"] if who else ["C02"], d.D)
         emit("returns=>S", ["C14"], S)
         want = d.V if value_of is None else value_of(d)
-        emit("value", list(props_value), real_term(r) == want)
+        emit("value", list(props_value), real_term(r) == want, extra=list(extra))
     else:
         k = H.exc_kind(res.outcome[1])
         if k == "DomainError":
